@@ -119,16 +119,14 @@ theorem C13_escape_404 (env : Env) (dir path : Str) (h : ProperAbs dir)
   have : serve env dir path = .notFound none := by unfold serve; rw [hd]
   rw [this]; exact ⟨rfl, rfl, rfl⟩
 
-/-- the same through `on_request_complete` (request path as bytes, `None` or
-empty standing for `/`) -/
-theorem C13_escape_404_request (env : Env) (dir : Str) (req : Bytes) (path : Str) (h : ProperAbs dir)
-    (hne : req ≠ []) (hdec : env.utf8 req = some path)
+/-- the same through `on_request_complete`: the request path as bytes (`None`
+or empty standing for `/`) that decode to `path` -/
+theorem C13_escape_404_request (env : Env) (dir : Str) (req : Option Bytes) (path : Str) (h : ProperAbs dir)
+    (hdec : utf8Decode (reqBytes req) = some path)
     (hout : ¬ Inside (rootComps dir) (resolve (rootComps dir) path)) :
-    (onRequestComplete env ⟨true, dir⟩ (some req)).pkt = some Gen.pkt_NOT_FOUND_RESPONSE_PKT := by
-  have : onRequestComplete env ⟨true, dir⟩ (some req) = serve env dir path := by
-    cases req with
-    | nil => exact absurd rfl hne
-    | cons x xs => simp [onRequestComplete, hdec]
+    (onRequestComplete env ⟨true, dir⟩ req).pkt = some Gen.pkt_NOT_FOUND_RESPONSE_PKT := by
+  have : onRequestComplete env ⟨true, dir⟩ req = serve env dir path := by
+    simp [onRequestComplete, hdec]
   rw [this]; exact (C13_escape_404 env dir path h hout).2.1
 
 /-- **Inside ⇒ served (the server is not vacuously safe).**  If the resolved
@@ -238,11 +236,151 @@ theorem C13_fs_outside_irrelevant (env : Env) (fs' : Str → Option Bytes) (dir 
     have := hagree t (confined_of_decide dir path t h hd)
     simp only [serveFile, okResponse, this]
 
-/-- static server disabled: every request without a route is answered 404 and
-the file system is not touched -/
+/-- static server disabled: every request without a route is answered 404
+(400 when its path is not UTF-8) and the file system is not touched -/
 theorem C13_disabled_404 (env : Env) (dir : Str) (req : Option Bytes) :
-    onRequestComplete env ⟨false, dir⟩ req = .notFound none := by
-  simp [onRequestComplete]
+    (onRequestComplete env ⟨false, dir⟩ req = .notFound none ∨
+      onRequestComplete env ⟨false, dir⟩ req = .badRequest) ∧
+    (onRequestComplete env ⟨false, dir⟩ req).opened = none := by
+  unfold onRequestComplete
+  cases utf8Decode (reqBytes req) <;> simp [Outcome.opened]
+
+/-! ### every byte string as request path (NUL, non-UTF-8, overlong spellings of `.` and `/`) -/
+
+/-- **Non-UTF-8 ⇒ 400, nothing opened.**  A request path that `bytes.decode('utf-8')`
+rejects is answered with exactly `BAD_REQUEST_RESPONSE_PKT`; no route is tried, no
+static lookup happens, `open()` is never called — whatever the configuration. -/
+theorem C13_nonutf8_rejected (env : Env) (cfg : Cfg) (req : Option Bytes)
+    (h : utf8Decode (reqBytes req) = none) :
+    onRequestComplete env cfg req = .badRequest ∧
+    (onRequestComplete env cfg req).pkt = some Gen.pkt_BAD_REQUEST_RESPONSE_PKT ∧
+    (onRequestComplete env cfg req).opened = none := by
+  have : onRequestComplete env cfg req = .badRequest := by simp [onRequestComplete, h]
+  rw [this]; exact ⟨rfl, rfl, rfl⟩
+
+/-- what `on_request_complete` does with a path that decodes -/
+theorem onRequestComplete_decoded (env : Env) (cfg : Cfg) (req : Option Bytes) (s : Str)
+    (h : utf8Decode (reqBytes req) = some s) :
+    onRequestComplete env cfg req = if cfg.enableStatic then serve env cfg.dir s else .notFound none := by
+  cases he : cfg.enableStatic <;> simp [onRequestComplete, h, he]
+
+/-- **C13 confinement for every byte string.**  Whatever bytes arrive as request
+path (`None`, empty, NUL bytes, bytes 0x80–0xff in any arrangement, overlong
+encodings of `.` `/` NUL), with the static server on or off: any path handed to
+`open()` lies strictly inside the static root. -/
+theorem C13_bytes_confined (env : Env) (en : Bool) (dir : Str) (req : Option Bytes) (t : Str)
+    (h : ProperAbs dir) (ho : (onRequestComplete env ⟨en, dir⟩ req).opened = some t) :
+    Confined dir t := by
+  cases hd : utf8Decode (reqBytes req) with
+  | none => rw [(C13_nonutf8_rejected env ⟨en, dir⟩ req hd).1] at ho; simp [Outcome.opened] at ho
+  | some s =>
+    rw [onRequestComplete_decoded env ⟨en, dir⟩ req s hd] at ho
+    cases en with
+    | false => simp [Outcome.opened] at ho
+    | true => exact C13_opened_confined env dir s t h (by simpa using ho)
+
+/-- **NUL ⇒ 404, no content.**  A resolved static path containing a NUL is
+answered `NOT_FOUND_RESPONSE_PKT` (`open()` raises ValueError before touching
+the file system; `serve_static_file` catches it) — for every file system, even
+one that had an entry under that name. -/
+theorem C13_nul_not_served (env : Env) (t : Str) (h : '\x00' ∈ t) :
+    serveFile env t = .notFound (some t) ∧
+    (serveFile env t).pkt = some Gen.pkt_NOT_FOUND_RESPONSE_PKT := by
+  have : serveFile env t = .notFound (some t) := by
+    unfold serveFile; rw [if_pos (by simpa using h)]
+  rw [this]; exact ⟨rfl, rfl⟩
+
+/-- **Served files, for every byte string.**  If any byte string at all is
+answered with file content, the file lies strictly inside the root, its name
+has no NUL, and the bytes were valid UTF-8 for a text path that `serve` answers
+the same way (so all text-level theorems apply). -/
+theorem C13_bytes_served (env : Env) (en : Bool) (dir : Str) (req : Option Bytes) (f : Str) (r : Ok)
+    (h : ProperAbs dir) (hs : onRequestComplete env ⟨en, dir⟩ req = .ok f r) :
+    Confined dir f ∧ '\x00' ∉ f ∧ en = true ∧
+    ∃ s, utf8Decode (reqBytes req) = some s ∧ serve env dir s = .ok f r := by
+  have hc := C13_bytes_confined env en dir req f h (by rw [hs]; rfl)
+  cases hd : utf8Decode (reqBytes req) with
+  | none => rw [(C13_nonutf8_rejected env ⟨en, dir⟩ req hd).1] at hs; cases hs
+  | some s =>
+    rw [onRequestComplete_decoded env ⟨en, dir⟩ req s hd] at hs
+    cases en with
+    | false => simp at hs
+    | true =>
+      simp only [if_true] at hs
+      refine ⟨hc, ?_, rfl, s, rfl, hs⟩
+      intro hn
+      unfold serve at hs
+      split at hs
+      · cases hs
+      · rename_i t' _
+        by_cases ht : '\x00' ∈ t'
+        · rw [(C13_nul_not_served env t' ht).1] at hs; cases hs
+        · unfold serveFile at hs
+          rw [if_neg (by simpa using ht)] at hs
+          split at hs
+          · cases hs
+          · injection hs with h1 _; subst h1; exact ht hn
+
+/-- **Every byte string is answered.**  No request path makes the model raise:
+the outcome is one of the three packets (400, 404, 200 with the file). -/
+theorem C13_bytes_answered (env : Env) (cfg : Cfg) (req : Option Bytes) :
+    (onRequestComplete env cfg req).pkt.isSome = true := by
+  cases h : onRequestComplete env cfg req <;> rfl
+
+/-- **Overlong / out-of-range lead bytes ⇒ 400.**  Any path containing a byte
+C0 or C1 (every two-byte overlong spelling: `c0 ae` = '.', `c0 af` = '/',
+`c1 9c` = '\\', `c0 80` = NUL) or a byte F5..FF, anywhere, is rejected with 400
+and nothing is opened. -/
+theorem C13_overlong_rejected (env : Env) (cfg : Cfg) (req : Bytes) (hne : req ≠ [])
+    (h : 0xC0 ∈ req ∨ 0xC1 ∈ req ∨ ∃ c ∈ req, 0xF5 ≤ c) :
+    onRequestComplete env cfg (some req) = .badRequest := by
+  have hr : reqBytes (some req) = req := by
+    cases req with
+    | nil => exact absurd rfl hne
+    | cons x xs => simp [reqBytes]
+  cases hd : utf8Decode (reqBytes (some req)) with
+  | none => exact (C13_nonutf8_rejected env cfg (some req) hd).1
+  | some s =>
+    rw [hr] at hd
+    have hf := utf8Decode_forbidden req s hd
+    rcases h with h | h | ⟨c, hc, hge⟩
+    · exact absurd rfl (hf _ h).1
+    · exact absurd rfl (hf _ h).2.1
+    · have := (hf c hc).2.2
+      rw [UInt8.lt_iff_toNat_lt] at this
+      rw [UInt8.le_iff_toNat_le] at hge
+      omega
+
+/-- **No smuggling through the decoder.**  When a byte string does decode, the
+characters below U+0080 of the text — in particular every `/`, `.`, `?` and NUL,
+the only characters the confinement logic looks at — are exactly the bytes
+below 0x80 of the input, in the same order and number.  No multi-byte sequence
+decodes to one of them. -/
+theorem C13_no_smuggling (x : Bytes) (s : Str) (h : utf8Decode x = some s) :
+    (s.filter (fun c => c.toNat < 128)).map Char.toNat = (x.filter (· < 0x80)).map UInt8.toNat :=
+  utf8Decode_ascii x s h
+
+/-- the three- and four-byte overlong spellings, surrogates, lone continuation
+bytes, truncated sequences and code points above U+10FFFF are rejected; valid
+multi-byte text (é, the full-width full stop U+FF0E, the division slash U+2215,
+an emoji) decodes — to characters that are not `.` or `/` -/
+example : utf8Decode [0x2f, 0xe0, 0x80, 0xaf] = none := by decide
+example : utf8Decode [0x2f, 0xe0, 0x80, 0xae, 0xe0, 0x80, 0xae] = none := by decide
+example : utf8Decode [0x2f, 0xf0, 0x80, 0x80, 0xaf] = none := by decide
+example : utf8Decode [0x2f, 0xc0, 0xae, 0xc0, 0xae, 0xc0, 0xaf] = none := by decide
+example : utf8Decode [0x2f, 0xed, 0xa0, 0x80] = none := by decide
+example : utf8Decode [0x2f, 0xf4, 0x90, 0x80, 0x80] = none := by decide
+example : utf8Decode [0x2f, 0x80] = none := by decide
+example : utf8Decode [0x2f, 0xe2, 0x82] = none := by decide
+example : utf8Decode [0x2f, 0xc3, 0xa9] = some ['/', 'é'] := by decide
+example : utf8Decode [0xef, 0xbc, 0x8e, 0xe2, 0x88, 0x95] = some ['．', '∕'] := by decide
+example : utf8Decode [0xf0, 0x9f, 0x98, 0x80] = some ['😀'] := by decide
+/-- a NUL byte is text; the static lookup then answers 404 without content -/
+example : utf8Decode [0x2f, 0x61, 0x00] = some ['/', 'a', '\x00'] := by decide
+example : decide "/srv/www".toList ['/', 'a', '\x00'] = .openFile ("/srv/www/a".toList ++ ['\x00']) := by decide
+example : decide "/srv/www".toList ['/', '.', '.', '\x00', '/', 's'] =
+    .openFile ("/srv/www/..".toList ++ ['\x00', '/', 's']) := by decide
+example : decide "/srv/www".toList ['/', '.', '.', '/', 's', '\x00'] = .deny := by decide
 
 /-! ### normpath facts -/
 
